@@ -365,7 +365,11 @@ func main() {
 					if o.Probe.UserType {
 						ts = append(ts, "TUserType")
 					}
-					fmt.Fprintf(&ctxl, "(%d, %s, [%s])\n", id, it.Ctx, strings.Join(ts, "; "))
+					dt := "None"
+					if o.Probe.DType != "" {
+						dt = "(Some " + o.Probe.DType + ")"
+					}
+					fmt.Fprintf(&ctxl, "(%d, %s, [%s], %s)\n", id, it.Ctx, strings.Join(ts, "; "), dt)
 				}
 			case "nearvalid":
 				if o.Outcome != "accepted" && o.Outcome != "rejected" {
@@ -416,7 +420,7 @@ func main() {
 	res.Extra["max_generate_ms"] = rn.maxGenMs
 	res.Extra["functions"] = names
 	res.Extra["contexts"] = len(contexts)
-	res.Rule = "witness: one fixed design/program per recorded finding; grid: every exported dsl function (123) x every context kind reachable through the public DSL (29), benign arguments; nearvalid: designgen.Random accepted designs with at most one mutation out of " + fmt.Sprint(len(mutators)) + " kinds; malformed: random programs (empty / context template / valid base + 1-5 random insertions, repeats, swaps; arguments benign or drawn per parameter type, any value where the parameter is `any`, nil functions, empty names). non-trivial = every program except the witnesses; distinct = distinct (program | design, mutation)"
+	res.Rule = "witness: one fixed design/program per recorded finding; grid: every exported dsl function (123) x every context kind reachable through the public DSL (37: expression kind x data type of the attribute), benign arguments; nearvalid: designgen.Random accepted designs with at most one mutation out of " + fmt.Sprint(len(mutators)) + " kinds; malformed: random programs (empty / context template / valid base + 1-5 random insertions, repeats, swaps; arguments benign or drawn per parameter type, any value where the parameter is `any`, nil functions, empty names). non-trivial = every program except the witnesses; distinct = distinct (program | design, mutation)"
 	sort.Strings(rn.harnessBugs)
 	if len(rn.harnessBugs) > 0 {
 		fmt.Println("c12 harness error (not a finding):")
